@@ -274,15 +274,30 @@ impl<const D: bool> SimShim<D> {
         p: &Program,
         results: QueryResultWriter<'_, W>,
     ) -> Result<(), ShimErr> {
-        // all column vectors must outlive the writer chain
-        let colsets: Vec<Vec<Column>> = p
+        // all column vectors must outlive the writer chain. Resultsets whose column lists are
+        // prefixes of one another are served from ONE vector (`&schema[..k]`), as an
+        // application with a single schema array would: the slices then share their address.
+        let specs: Vec<&[ColSpec]> = p
             .units
             .iter()
             .map(|u| match u {
-                Unit::Rows(r) => r.cols.iter().map(mk_column).collect(),
-                Unit::Count { .. } | Unit::BulkRows { .. } => Vec::new(),
+                Unit::Rows(r) => &r.cols[..],
+                Unit::Count { .. } | Unit::BulkRows { .. } => &[][..],
             })
             .collect();
+        let built: Vec<Vec<Column>> = specs.iter().map(|s| s.iter().map(mk_column).collect()).collect();
+        let root: Vec<usize> = (0..specs.len())
+            .map(|i| {
+                let mut best = i;
+                for j in 0..specs.len() {
+                    if specs[j].len() > specs[best].len() && specs[j].len() >= specs[i].len() && specs[j][..specs[i].len()] == *specs[i] {
+                        best = j;
+                    }
+                }
+                best
+            })
+            .collect();
+        let colsets: Vec<&[Column]> = (0..specs.len()).map(|i| &built[root[i]][..specs[i].len()]).collect();
         let n = p.units.len();
         let mut w = results;
         macro_rules! api {
@@ -312,7 +327,7 @@ impl<const D: bool> SimShim<D> {
                     w = api!("complete_one", w.complete_one(*affected, *last_id))?;
                 }
                 Unit::BulkRows { n } => {
-                    let mut rw = api!("start", w.start(&colsets[i]))?;
+                    let mut rw = api!("start", w.start(colsets[i]))?;
                     let mut res = Ok(());
                     for _ in 0..*n {
                         res = rw.end_row();
@@ -328,7 +343,7 @@ impl<const D: bool> SimShim<D> {
                     w = api!("finish_one", rw.finish_one())?;
                 }
                 Unit::Rows(r) => {
-                    let mut rw = api!("start", w.start(&colsets[i]))?;
+                    let mut rw = api!("start", w.start(colsets[i]))?;
                     let mut row_err: Option<io::Error> = None;
                     'rows: for (ri, row) in r.rows.iter().enumerate() {
                         // apply the contradiction, if it concerns this row
@@ -358,7 +373,23 @@ impl<const D: bool> SimShim<D> {
                             _ => {}
                         }
                         if r.write_row {
-                            if let Err(e) = api!("write_row", rw.write_row(cells.iter().map(CellVal))) {
+                            let lead = if p.mixed_rows > 0 && r.contra.is_none() && cells.len() >= 2 {
+                                (p.mixed_rows as usize).min(cells.len() - 1)
+                            } else {
+                                0
+                            };
+                            let mut lead_err = None;
+                            for cell in &cells[..lead] {
+                                if let Err(e) = api!("write_col", write_cell(&mut rw, cell)) {
+                                    lead_err = Some(e);
+                                    break;
+                                }
+                            }
+                            if let Some(e) = lead_err {
+                                row_err = Some(e);
+                                break 'rows;
+                            }
+                            if let Err(e) = api!("write_row", rw.write_row(cells[lead..].iter().map(CellVal))) {
                                 if force_end
                                     && e.kind() == io::ErrorKind::InvalidData
                                     && matches!(&r.recover, Some((crate::model::CARRY_ON, _)))
